@@ -7,6 +7,7 @@ Spec predicates (`Invalid…`, `doc…` tables) are written here from the docume
 `Gen.Network`, `Gen.Units`, `Gen.EngineCpp`).  One section per class of invalid input of the statement.
 -/
 import Strengths.Proofs.Validation
+import Strengths.Proofs.Coarsegrain
 
 namespace Strengths.C20
 open Strengths Strengths.Gen
@@ -76,7 +77,7 @@ def docMandatory : List (String × List String) := [
 default, and every `*_from_dict` needs exactly the documented mandatory keys -/
 theorem key_tables_are_documented :
     aliasTable = docAliases ∧ mandatoryKeys = docMandatory ∧ keysDefaultPolicy = "error" ∧
-    keysRaiseSites = [("notkey_found", "policy==\"error\""), ("len(synonyms_found)>1", "policy==\"error\"")] ∧
+    keysRaiseSites = [("notv4", "v2==\"error\""), ("len(v6)>1", "v2==\"error\"")] ∧
     unitsKeywords = ["default", "inherit"] := by
   decide +kernel
 
@@ -125,6 +126,94 @@ theorem from_dict_rejects_iff (fn : String) (syn : List (List String)) (mand key
       simp only [not_forall] at hall
       obtain ⟨m, hm, hmc⟩ := hall
       exact ⟨m, hm, fun h => hmc (List.contains_iff_mem.mpr h)⟩
+
+/-- the conclusion of `from_dict_rejects_iff` for given alias lists and mandatory keys -/
+def KeysRejected (syn : List (List String)) (mand keys : List String) : Prop :=
+  UnknownKey syn keys ∨ (∃ s ∈ syn, 2 ≤ (keys.filter fun k => s.contains k).length) ∨ ∃ m ∈ mand, m ∉ canonicalKeys syn keys
+
+/-- `unitssystem_from_dict` raises iff a key is unknown, two keys are synonyms, or a mandatory key is absent -/
+theorem unitssystem_from_dict_rejects_iff (keys : List String) :
+    (fromDictKeys "unitssystem_from_dict" keys).isError = true ↔
+      KeysRejected [["space"], ["time"], ["quantity"]]
+        [] keys :=
+  from_dict_rejects_iff _ _ _ keys (by decide +kernel) (by decide +kernel)
+
+/-- `unitsdimensions_from_dict` raises iff a key is unknown, two keys are synonyms, or a mandatory key is absent -/
+theorem unitsdimensions_from_dict_rejects_iff (keys : List String) :
+    (fromDictKeys "unitsdimensions_from_dict" keys).isError = true ↔
+      KeysRejected [["space"], ["time"], ["quantity"]]
+        ["space", "time", "quantity"] keys :=
+  from_dict_rejects_iff _ _ _ keys (by decide +kernel) (by decide +kernel)
+
+/-- `unitarray_from_dict` raises iff a key is unknown, two keys are synonyms, or a mandatory key is absent -/
+theorem unitarray_from_dict_rejects_iff (keys : List String) :
+    (fromDictKeys "unitarray_from_dict" keys).isError = true ↔
+      KeysRejected [["value"], ["units"]]
+        ["value", "units"] keys :=
+  from_dict_rejects_iff _ _ _ keys (by decide +kernel) (by decide +kernel)
+
+/-- `species_from_dict` raises iff a key is unknown, two keys are synonyms, or a mandatory key is absent -/
+theorem species_from_dict_rejects_iff (keys : List String) :
+    (fromDictKeys "species_from_dict" keys).isError = true ↔
+      KeysRejected [["label", "l"], ["D", "diff_coef", "diffusion_coefficient", "diff coef", "diffusion coefficient"], ["density", "concentration", "dens", "conc", "C"], ["chstt", "chemostat"], ["units", "units_system", "units system", "u"]]
+        ["label"] keys :=
+  from_dict_rejects_iff _ _ _ keys (by decide +kernel) (by decide +kernel)
+
+/-- `reaction_from_dict` raises iff a key is unknown, two keys are synonyms, or a mandatory key is absent -/
+theorem reaction_from_dict_rejects_iff (keys : List String) :
+    (fromDictKeys "reaction_from_dict" keys).isError = true ↔
+      KeysRejected [["stoichiometry", "eq", "sto", "equation"], ["label", "l"], ["k+", "kf"], ["k-", "kr"], ["units", "units_system", "units system", "u"]]
+        ["stoichiometry"] keys :=
+  from_dict_rejects_iff _ _ _ keys (by decide +kernel) (by decide +kernel)
+
+/-- `rdnetwork_from_dict` raises iff a key is unknown, two keys are synonyms, or a mandatory key is absent -/
+theorem rdnetwork_from_dict_rejects_iff (keys : List String) :
+    (fromDictKeys "rdnetwork_from_dict" keys).isError = true ↔
+      KeysRejected [["species"], ["reactions"], ["environments", "env"], ["units", "units_system", "units system", "u"]]
+        ["species"] keys :=
+  from_dict_rejects_iff _ _ _ keys (by decide +kernel) (by decide +kernel)
+
+/-- `rdgridspace_from_dict` raises iff a key is unknown, two keys are synonyms, or a mandatory key is absent -/
+theorem rdgridspace_from_dict_rejects_iff (keys : List String) :
+    (fromDictKeys "rdgridspace_from_dict" keys).isError = true ↔
+      KeysRejected [["type"], ["w", "width"], ["h", "height"], ["d", "depth"], ["cell_env", "cell_environments", "cell environments", "environments", "env"], ["cell_volume", "cell_vol"], ["boundary_conditions"], ["units", "units_system", "units system", "u"]]
+        [] keys :=
+  from_dict_rejects_iff _ _ _ keys (by decide +kernel) (by decide +kernel)
+
+/-- `rdgraphspacenode_from_dict` raises iff a key is unknown, two keys are synonyms, or a mandatory key is absent -/
+theorem rdgraphspacenode_from_dict_rejects_iff (keys : List String) :
+    (fromDictKeys "rdgraphspacenode_from_dict" keys).isError = true ↔
+      KeysRejected [["volume", "vol"], ["environment", "env"], ["units", "units_system", "units system", "u"]]
+        [] keys :=
+  from_dict_rejects_iff _ _ _ keys (by decide +kernel) (by decide +kernel)
+
+/-- `rdgraphspaceedge_from_dict` raises iff a key is unknown, two keys are synonyms, or a mandatory key is absent -/
+theorem rdgraphspaceedge_from_dict_rejects_iff (keys : List String) :
+    (fromDictKeys "rdgraphspaceedge_from_dict" keys).isError = true ↔
+      KeysRejected [["nodes"], ["surface"], ["distance"], ["units", "units_system", "units system", "u"]]
+        ["nodes"] keys :=
+  from_dict_rejects_iff _ _ _ keys (by decide +kernel) (by decide +kernel)
+
+/-- `rdgraphspace_from_dict` raises iff a key is unknown, two keys are synonyms, or a mandatory key is absent -/
+theorem rdgraphspace_from_dict_rejects_iff (keys : List String) :
+    (fromDictKeys "rdgraphspace_from_dict" keys).isError = true ↔
+      KeysRejected [["type"], ["nodes"], ["edges"], ["units", "units_system", "units system", "u"]]
+        ["nodes", "edges"] keys :=
+  from_dict_rejects_iff _ _ _ keys (by decide +kernel) (by decide +kernel)
+
+/-- `rdsystem_from_dict` raises iff a key is unknown, two keys are synonyms, or a mandatory key is absent -/
+theorem rdsystem_from_dict_rejects_iff (keys : List String) :
+    (fromDictKeys "rdsystem_from_dict" keys).isError = true ↔
+      KeysRejected [["network", "rdnetwork"], ["space", "rdspace"], ["state"], ["chemostats"], ["units", "units_system", "units system", "u"]]
+        ["network"] keys :=
+  from_dict_rejects_iff _ _ _ keys (by decide +kernel) (by decide +kernel)
+
+/-- `rdscript_from_dict` raises iff a key is unknown, two keys are synonyms, or a mandatory key is absent -/
+theorem rdscript_from_dict_rejects_iff (keys : List String) :
+    (fromDictKeys "rdscript_from_dict" keys).isError = true ↔
+      KeysRejected [["system"], ["t_sample"], ["time_step", "time step", "dt"], ["t_max", "tmax"], ["sampling_policy", "sampling policy"], ["sampling_interval", "sampling interval"], ["rng_seed", "rng seed", "seed"], ["init_state_processing", "init state processing"], ["units", "units_system", "units system", "u"]]
+        ["system", "t_sample"] keys :=
+  from_dict_rejects_iff _ _ _ keys (by decide +kernel) (by decide +kernel)
 
 example : (fromDictKeys "species_from_dict" ["label", "bogus"]).isError = true := by decide +kernel
 example : (fromDictKeys "species_from_dict" ["label", "l"]).isError = true := by decide +kernel
@@ -320,7 +409,7 @@ theorem env_beyond_list_system_rejected_of_source (stateGiven chemGiven : Bool) 
 /-- the `RDSystem.space` setter compares every cell's environment index with the number of environments
 (repository fix 445be23) … -/
 theorem system_source_checks_env :
-    systemSpaceChecksEnv = true ∧ systemSpaceEnvTests = ["int(e)>=self.network.nenvironments()"] := by decide +kernel
+    systemSpaceChecksEnv = true ∧ systemSpaceEnvTests = ["int(v1)>=self.network.nenvironments()"] := by decide +kernel
 
 /-- … hence a system whose space names an environment beyond the list is refused, with or without explicit
 state and chemostat map -/
@@ -736,17 +825,74 @@ example : (stateIndexOf [some ['A'], some ['B']] (.grid ⟨2, 2, 1, false, false
 /-! ## 7. Coarse-graining index maps -/
 
 theorem index_map_source :
-    indexMapRaiseConds = ["len(im)!=space.size()", "type(i)!=int", "im_min<-1", "im_max<0", "inotinim"] := by decide +kernel
+    indexMapRaiseConds = ["len(v0)!=v1.size()", "type(v2)!=int", "v4<-1", "v3<0", "v2notinv0"] := by decide +kernel
 
-/-- a map of the wrong length is refused -/
-theorem index_map_wrong_length_rejected (im env : List Int) (h : im.length ≠ env.length) :
-    vCheckIndexMap im env = .error .badValue := by
-  simp [vCheckIndexMap, h]
+theorem isError_unit_iff (r : Res Unit) : r.isError = true ↔ r ≠ .ok () := by
+  cases r with
+  | ok u => cases u; simp [Res.isError]
+  | error e => simp [Res.isError]
 
-example : vCheckIndexMap [0, 0, 1, -1] [0, 0, 1, 1] = .ok () := by decide +kernel
-example : (vCheckIndexMap [0, 0, 2, -1] [0, 0, 1, 1]).isError = true := by decide +kernel   -- index 1 missing
-example : (vCheckIndexMap [0, 0, 1, -2] [0, 0, 1, 1]).isError = true := by decide +kernel   -- below -1
-example : (vCheckIndexMap [-1, -1] [0, 0]).isError = true := by decide +kernel               -- empty graph
-example : (vCheckIndexMap [0, 0, 1, 1] [0, 1, 1, 1]).isError = true := by decide +kernel    -- mixed environments
+/-- `check_index_map_validity` raises exactly when the map breaks one of the documented rules (`ValidMap`, written by
+the coarse-graining builder from the docstring: right length, every entry a Python `int ≥ -1`, not all dropped, every
+integer of `0..max` present, no two retained cells of one output node in different environments).
+Hypothesis: no cell environment equals `-2`, the code's internal "unset" marker. -/
+theorem index_map_rejects_iff (im : List (Option Int)) (env : List Int) (henv : ∀ e ∈ env, e ≠ -2) :
+    (vCheckIndexMap im env).isError = true ↔ ¬ ValidMap im env := by
+  rw [isError_unit_iff, vCheckIndexMap, ne_eq, valid_iff_aux im env henv]
+
+/-- rule 1: wrong length -/
+theorem index_map_wrong_length_rejected (im : List (Option Int)) (env : List Int) (h : im.length ≠ env.length) :
+    (vCheckIndexMap im env).isError = true := by
+  rw [isError_unit_iff, vCheckIndexMap, ne_eq, checkIndexMap_ok_iff]
+  exact fun hv => h hv.1
+
+/-- rule 2: an entry that is not a Python `int` -/
+theorem index_map_non_int_rejected (im : List (Option Int)) (env : List Int) (h : none ∈ im) :
+    (vCheckIndexMap im env).isError = true := by
+  rw [isError_unit_iff, vCheckIndexMap, ne_eq, checkIndexMap_ok_iff]
+  intro hv
+  have := hv.2.1 none h
+  simp at this
+
+/-- rule 3: a negative entry other than `-1` -/
+theorem index_map_negative_rejected (im : List (Option Int)) (env : List Int) (x : Int) (hx : some x ∈ im) (hneg : x < -1) :
+    (vCheckIndexMap im env).isError = true := by
+  rw [isError_unit_iff, vCheckIndexMap, ne_eq, checkIndexMap_ok_iff]
+  rintro ⟨_, _, mx, mn, _, hmn, hge, _, _, _⟩
+  have hmem : x ∈ im.filterMap id := by simpa using hx
+  have := listMin_le hmn x hmem
+  omega
+
+/-- rule 4: every cell dropped (or no cell at all): the output graph would be empty -/
+theorem index_map_all_dropped_rejected (im : List (Option Int)) (env : List Int) (h : ∀ x, some x ∈ im → x < 0) :
+    (vCheckIndexMap im env).isError = true := by
+  rw [isError_unit_iff, vCheckIndexMap, ne_eq, checkIndexMap_ok_iff]
+  rintro ⟨_, _, mx, mn, hmx, _, _, hge, _, _⟩
+  have hmem := listMax_mem hmx
+  have : some mx ∈ im := by simpa using hmem
+  have := h mx this
+  omega
+
+/-- rule 5: an output index below the maximum that no cell maps to -/
+theorem index_map_gap_rejected (im : List (Option Int)) (env : List Int) (k : Nat) (x : Int) (hx : some x ∈ im)
+    (hk : (k : Int) < x) (hmiss : some (k : Int) ∉ im) : (vCheckIndexMap im env).isError = true := by
+  rw [isError_unit_iff, vCheckIndexMap, ne_eq, checkIndexMap_ok_iff]
+  rintro ⟨_, _, mx, mn, hmx, _, _, _, hpres, _⟩
+  have hmem : x ∈ im.filterMap id := by simpa using hx
+  have hle := listMax_ge hmx x hmem
+  have := hpres k (by omega)
+  exact hmiss (by simpa using this)
+
+/-- rule 6: two retained cells of one output node in different environments -/
+theorem index_map_mixed_env_rejected (im : List (Option Int)) (env : List Int) (henv : ∀ e ∈ env, e ≠ -2)
+    (h : ¬ NoMix ((im.filterMap id).zip env)) : (vCheckIndexMap im env).isError = true :=
+  (index_map_rejects_iff im env henv).2 fun hv => h hv.nomix
+
+example : vCheckIndexMap [some 0, some 0, some 1, some (-1)] [0, 0, 1, 1] = .ok () := by decide +kernel
+example : (vCheckIndexMap [some 0, some 0, some 2, some (-1)] [0, 0, 1, 1]).isError = true := by decide +kernel   -- index 1 missing
+example : (vCheckIndexMap [some 0, some 0, some 1, some (-2)] [0, 0, 1, 1]).isError = true := by decide +kernel   -- below -1
+example : (vCheckIndexMap [some (-1), some (-1)] [0, 0]).isError = true := by decide +kernel                      -- empty graph
+example : (vCheckIndexMap [some 0, some 0, some 1, some 1] [0, 1, 1, 1]).isError = true := by decide +kernel      -- mixed environments
+example : (vCheckIndexMap [some 0, none] [0, 0]).isError = true := by decide +kernel                              -- a float entry
 
 end Strengths.C20
